@@ -20,6 +20,7 @@ type c08Arch struct {
 	Include     bool // not a rule file: lives in include/
 	OfPrev      bool // chain link file of the previous file's rule (same id, offset 1)
 	FailsFormat bool // format of the file fails as well
+	Spell       string // the chain part of the file name as written (default -chain1 for Chain, none otherwise)
 }
 
 var c08Archs = []c08Arch{
@@ -39,6 +40,9 @@ var c08Archs = []c08Arch{
 	{Name: "cmdline-marked-words", Text: "##!> cmdline unix\ncurl@\nwget~\n##!<\n"},
 	{Name: "cmdline-bare-words", Text: "##!> cmdline unix\ncurl\nwget@\n##!<\n"},
 	{Name: "stray-end-marker", Text: "  foo\n##!<\n", Fails: true, FailsFormat: true},
+	// offsets that are not spelled canonically name the file as written
+	{Name: "chain01-spelling", Text: "  padded\nlink\n", Chain: true, Spell: "-chain01"},
+	{Name: "chain0-spelling", Text: "  zero\noffset\n", Spell: "-chain0"},
 }
 
 type c08File struct {
@@ -73,15 +77,19 @@ func c08Build(sel []int) c08Tree {
 			t[p] = ar.Text
 			files = append(files, c08File{a, fmt.Sprintf("helper%d", i), p, ""})
 		case ar.Chain:
-			p := "regex-assembly/" + id + "-chain1.ra"
+			sp := "-chain1"
+			if ar.Spell != "" {
+				sp = ar.Spell
+			}
+			p := "regex-assembly/" + id + sp + ".ra"
 			t[p] = ar.Text
 			rules = append(rules, ruleSpec{ID: id, Regex: "KEEP" + id, Chain: []string{"OLD" + id}})
-			files = append(files, c08File{a, id + "-chain1", p, id})
+			files = append(files, c08File{a, id + sp, p, id})
 		default:
-			p := "regex-assembly/" + id + ".ra"
+			p := "regex-assembly/" + id + ar.Spell + ".ra"
 			t[p] = ar.Text
 			rules = append(rules, ruleSpec{ID: id, Regex: "OLD" + id})
-			files = append(files, c08File{a, id, p, id})
+			files = append(files, c08File{a, id + ar.Spell, p, id})
 		}
 	}
 	t["rules/REQUEST-123-TEST.conf"] = rulesFile(rules...)
@@ -339,7 +347,7 @@ func C08(r *core.Run) {
 	r.Cov["distinct_nontrivial"] = tot.Trees
 	r.Cov["exhaustive"] = len(deaths) == 0
 	r.Cov["bound"] = map[string]any{"archetypes": len(c08Archs), "files_per_tree": r.Pick(2, 3), "commands": 3}
-	r.Cov["rule"] = "all ordered selections of <= n file archetypes (failing ones and include helpers only last) given ascending rule ids; per tree and command: one --all run and an explicit-state BFS over all orders of single-file invocations with the real CLI (state = processed set + whole tree + reports so far); all orders must reach one terminal state equal to the --all state, compare reports equal as multisets; files that fail alone must make --all fail"
+	r.Cov["rule"] = "all ordered selections of <= n file archetypes (failing ones and include helpers only last) given ascending rule ids; per tree and command: one --all run and an explicit-state BFS over all orders of single-file invocations with the real CLI (state = processed set + whole tree + reports so far); all orders must reach one terminal state equal to the --all state, compare reports equal as multisets; files that fail alone must make --all fail; for update, --all is also started from every intermediate state of the BFS (some files processed, others not) and must reach the common end state"
 	r.Cov["samples"] = []any{[]string{"stores-x", "uses-x-unstored"}, []string{"defines-d", "uses-d-undefined", "chain1"}, []string{"flags-prefix-suffix", "plain", "include-helper"}}
 	r.Assume = append(r.Assume, "for a tree containing a file that fails on its own, update --all may leave either the untouched tree (all-or-nothing) or the tree the single invocations leave; both readings of C16/C08 are accepted")
 }
